@@ -197,12 +197,14 @@ struct vp_fault_cfg {
 	uint32_t wait_eintr;		/* FUTEX_WAIT returns -1/EINTR at once */
 	uint32_t wake_delay;		/* delay before FUTEX_WAKE */
 	int futex_enosys;		/* every futex() returns ENOSYS */
+	uint32_t wait_enosys;		/* prob out of 1<<20: FUTEX_WAIT alone returns ENOSYS (the spurious ENOSYS that
+					 * include/urcu/futex.h documents for some kernels; wakes still reach the kernel) */
 	int no_membarrier;		/* MEMBARRIER_CMD_QUERY -> ENOSYS (env VP_NO_MEMBARRIER) */
 };
 extern struct vp_fault_cfg vp_fault;
 struct vp_fault_stats {
 	uint64_t futex_wait, futex_wake, futex_wait_blocked, wake_woke;
-	uint64_t inj_spurious, inj_eintr, inj_enosys, inj_wake_delay;
+	uint64_t inj_spurious, inj_eintr, inj_enosys, inj_wake_delay, inj_wait_enosys;
 	uint64_t membarrier, membarrier_denied;
 };
 void vp_fault_stats_get(struct vp_fault_stats *s);
